@@ -41,6 +41,7 @@ type Exec struct {
 	inlineDepth int
 	subsetFail []string
 	curReveal []string
+	curAssumePre []string
 	curDecr   []*Term // recursion measure of the function under verification, at its entry
 	allPkgs   []*packages.Package
 	typeCache map[string]types.Type
@@ -182,6 +183,12 @@ func (x *Exec) heapTargets(addr ssa.Value) []string {
 	if _, ok := root.(*ssa.FreeVar); ok {
 		return nil
 	}
+	if g, ok := root.(*ssa.Global); ok {
+		if x.structOf(g.Type().(*types.Pointer).Elem()) == nil {
+			a := x.globalAddr(g)
+			return []string{a.GlobalArr}
+		}
+	}
 	pt, ok := root.Type().Underlying().(*types.Pointer)
 	if !ok {
 		if isFreshSlice(root, 0) {
@@ -319,6 +326,15 @@ func (x *Exec) callEffects(c *ssa.CallCommon, in *ssa.Function) map[string]bool 
 			for n, full := range x.effectsOf(impl) {
 				mergeEff(e, n, full)
 			}
+		}
+		// a protocol method with a contract touches the ghost trace only by its own logged event
+		if con := x.ifaceContract(c); con != nil {
+			if con.Logged {
+				e["$trace"] = true
+			} else {
+				delete(e, "$trace")
+			}
+			return e
 		}
 		e["$trace"] = true
 		return e
@@ -571,4 +587,17 @@ func isLocalClosureCall(v ssa.Value) bool {
 		}
 	}
 	return n > 0
+}
+
+func (x *Exec) ifaceContract(c *ssa.CallCommon) *Contract {
+	named, _ := c.Value.Type().(*types.Named)
+	if sig, ok := c.Method.Type().(*types.Signature); ok && sig.Recv() != nil {
+		if dn, ok := sig.Recv().Type().(*types.Named); ok {
+			named = dn
+		}
+	}
+	if named == nil || named.Obj().Pkg() == nil {
+		return nil
+	}
+	return x.cs.Funcs[named.Obj().Pkg().Path()+"::"+named.Obj().Name()+"."+c.Method.Name()]
 }
